@@ -26,6 +26,9 @@ CORPUS_DECLS = ['*IDN?', '*RST', 'A:B', 'A:B?', 'A:C', 'a:b', '[A]:B', 'A:[B]', 
                 'SYSTem:ERRor?', 'SYST:ERR:NEXT?', 'SYSTem:ERRor:[NEXT]', 'SYST:ERR:COUN?', 'SYSTem:VERS?', 'SYSTem:VERSion', 'SYSTem:ERRor:ALL?',
                 'MEASure:VOLTage:[DC]?', 'MEAS:VOLT?', 'MEASure:VOLTage:AC?', '[SENSe]:VOLTage:RANGe', 'VOLT:RANG', 'SENS:VOLT:RANGE', 'VOLTage:RANGe?',
                 'TRIGger:[SEQuence]:SOURce', 'TRIG:SOUR', 'TRIG:SEQ:SOUR?', 'TRIGger:SOURce?']
+# mnemonics with characters that are neither upper nor lower case (numeric suffixes, '_', '*'), checked as given pairs and in the spelling differential
+SUFFIX_DECLS = ['OUTPut1:STATe', 'OUTPut2:STATe', 'OUTP1:STAT', 'OUTP:STAT', 'CHANnel1:VALue?', 'CHan1:VALue?', 'CHAN:VAL?', 'CH_a:X', 'CH_:X', 'CH:X', '*RST', 'RST', '*IDN?', 'IDN?',
+                'MEAS2:VOLTage3?', 'MEAS:VOLT3?', 'MEAS2:VOLT?']
 
 
 def ref_collides(a, b):
@@ -77,9 +80,24 @@ def check(run):
     except Exception as e:
         raise Inconclusive('MIR dump of microscpi-macros could not be read: ' + repr(e))
     # ---- translator validation for the macro world: paths() from MIR == reference expansion; insert from MIR == real rustc verdict
-    bad = M.validate_paths(ex, [d for d in CORPUS_DECLS if ref_self_ok(d)] + ['Gh1_:I2', '[OPT]:[INNer]:LEAF?', 'TeST:A'])
-    if bad:
-        raise Inconclusive('Command::paths executed from MIR disagrees with the reference expansion on ' + json.dumps(bad[:2], default=str)[:400])
+    # ---- spelling differential: Command::try_from + paths executed from MIR vs the reference expansion, on concrete declarations.
+    # A difference is turned into a witness pair (the declaration and the differing spelling declared literally) for the native stage.
+    viol = {}
+    spell_decls = [d for d in CORPUS_DECLS + SUFFIX_DECLS if ref_self_ok(d)] + ['Gh1_:I2', '[OPT]:[INNer]:LEAF?', 'TeST:A']
+    try:
+        got_sp = M.spelling_sets(ex, spell_decls)
+    except Exception as e:
+        raise Inconclusive('Command::try_from / paths could not be executed from MIR: ' + repr(e)[:300])
+    witness_sets = []
+    for d in spell_decls:
+        want = set(raw_paths(d))
+        have = set(got_sp[d])
+        for sp in sorted(want ^ have):
+            if not sp:
+                continue
+            lit = ':'.join(sp) + ('?' if d.endswith('?') else '')
+            witness_sets.append({'decls': [d, lit], 'attrs': [], 'why': f"spelling {':'.join(sp)} of {d} is {'missing from' if sp in want else 'added to'} the macro's expansion"})
+    cov['spelling_differential'] = {'declarations': len(spell_decls), 'differences': len(witness_sets)}
     import random
     rnd = random.Random(run.seed)
     sets = []
@@ -94,13 +112,16 @@ def check(run):
     for d in CORPUS_DECLS:
         for attrs in (['ErrorCommands'], ['StandardCommands'], ['ErrorCommands', 'StandardCommands']):
             sets.append({'decls': [d], 'attrs': attrs})
+    for a, b in itertools.permutations(SUFFIX_DECLS, 2):
+        if a.endswith('?') == b.endswith('?') and a.lstrip('*')[:2] == b.lstrip('*')[:2]:
+            sets.append({'decls': [a, b], 'attrs': []})
+    sets.extend(witness_sets)
     for tri in (['A:B', 'A:C', '[A]:C'], ['A:B', 'A:C', 'A:D'], ['A:B?', 'A:B', '[A]:B?'], ['AB:C', 'AD:C', 'ab:[E]:c'], ['[A]:B', '[C]:B', 'D:B']):
         sets.append({'decls': tri, 'attrs': []})
     try:
         got = compile_probe.compile_sets(sets)
     except build.BuildError as e:
         raise Inconclusive(str(e))
-    viol = {}
     n_coll = 0
     model_mismatch = []
     for st, (compiles, err) in zip(sets, got):
@@ -108,6 +129,8 @@ def check(run):
         n_coll += 0 if want else 1
         if compiles != want:
             role = 'NATIVE:' + ('accepted' if compiles else 'rejected')
+            if st.get('why'):
+                run.log('[spelling] ' + st['why'])
             what = (f"declarations {st['decls']} (+{st['attrs']}) share a spelling of the same kind but the crate compiles: a handler is silently shadowed" if compiles else
                     f"declarations {st['decls']} (+{st['attrs']}) share no spelling but the crate does not compile: {err}")
             cur = viol.get(role)
@@ -140,6 +163,8 @@ def check(run):
         stt = go(f"{p['n']} declarations of 1..{p['parts']} parts, letters symbolic over A/B and a/b, optional flags and kinds forked", dict(p, mode='small'), pl['per'], required=(i == 0))
         if stt['complete']:
             bounds[f"small n={p['n']}"] = p['parts']
+    go('2 queries of 1..2 parts: one letter A/B, optional a/b, optional trailing 1/2/_ (characters without case), optional flags forked',
+       {'n': 2, 'parts': 2, 'mode': 'small', 'digits': True, 'queries_only': True}, pl['per'])
     templates = BUILTIN['ErrorCommands'] + BUILTIN['StandardCommands'] + ['MEASure:VOLTage:[DC]?', '[SENSe]:VOLTage:RANGe', 'TRIGger:[SEQuence]:SOURce', '*IDN?']
     for t in templates:
         go(f'declaration near {t} (letters symbolic over the template letter or Q/q, short or long part, optional flags, prefix length, kind; either order)',
